@@ -385,7 +385,7 @@ func (h *harness) judgeServed(w *apiWorld, c Case, body string, verbose bool) *f
 		}
 	}
 	if h.model != nil {
-		reply, err := h.model.Ask(modelRequest(p.doc, c.OpName, p.varsOk, -1, c.Default, p.coerced))
+		reply, err := h.model.Ask(modelRequest(p.doc, c.OpName, p.varsOk, -1, c.Default, p.coerced, p.raw))
 		if err != nil {
 			return &failure{"correspondence", "model driver failed: " + err.Error()}
 		}
